@@ -31,7 +31,7 @@ one apply; model (recorded announcements/withdrawals applied in order, ASPA keye
 Client::state() names a state the source issued; for version >= 1 timing passed to apply == source timing. Err steps: no \
 apply. Every step must finish within 100000 socket operations and 200000 s of virtual time; a step with a ready source, no \
 stray Serial Notify and no notification timer outstanding must succeed. Non-trivial = history with >=1 update between two successful steps on one connection \
-where the later step is diff-served or a Cache Reset fallback. Steps are taken through step(), through update() + apply(), or as a caller-forced reset() + apply(); every item handed to the target must be interchangeable (==, hash, cmp) with the same item built through the public constructors with explicit and with implicit max length.";
+where the later step is diff-served or a Cache Reset fallback. Steps are taken through step(), through update() + apply(), or as a caller-forced reset() + apply(); every item handed to the target must be interchangeable (==, hash, cmp) with the same item built through the public constructors with explicit and with implicit max length. The reference source's items include ASPAs with provider lists around 64 and 256 entries and up to 4000, router keys up to 5000 octets and (one update in about 500) tables of 1500..4000 origins, so that single responses carry 64 KiB and more of PDUs with boundaries at every offset modulo 4.";
 
 const SETTLE_TURNS: u32 = 400;
 const STEP_BUDGET: u64 = 100_000;
